@@ -227,7 +227,7 @@ func genDecoderOpts(t *rapid.T, withCast bool) Opts {
 // applyUnrelatedOptions switches on package options that are not documented to influence the path/key queries,
 // the update functions or NewMap (decoder, encoder and cast switches, prefixes); the checks of those properties run
 // under them with unchanged expectations. sel == 0 leaves everything at its default.
-func applyUnrelatedOptions(sel uint16) {
+func applyUnrelatedOptions(sel uint32) {
 	if sel == 0 {
 		return
 	}
@@ -257,14 +257,15 @@ func applyUnrelatedOptions(sel uint16) {
 		mxj.SetGlobalKeyMapPrefix("$")
 	}
 	defer bystanders()
+	mxj.LeafUseDotNotation(bit(16)) // concerns the paths LeafNodes reports, nothing else
 	if bit(15) {
 		mxj.SetCheckTagToSkipFunc(func(string) bool { return true })
 	}
 }
 
-func genUnrelated(t *rapid.T) uint16 {
+func genUnrelated(t *rapid.T) uint32 {
 	if rapid.IntRange(0, 2).Draw(t, "unrelatedopts") > 0 {
 		return 0
 	}
-	return rapid.Uint16().Draw(t, "optbits")
+	return uint32(rapid.Uint16().Draw(t, "optbits")) | uint32(rapid.IntRange(0, 1).Draw(t, "optbits2"))<<16
 }
